@@ -63,6 +63,67 @@ func genC08(env *Env) string {
 	return strings.Join(parts, " ")
 }
 
+// genC08Reconnect: several exporting processes one after the other for the same collector
+// address and observation domain (close, InitExportingProcess again). Each process counts
+// only the data records it has sent itself; data for a template of an earlier process is
+// refused until the template has been sent again on the new process.
+func genC08Reconnect(env *Env) string {
+	r := env.Rng
+	start := func() uint64 {
+		switch r.Intn(4) {
+		case 0:
+			return 4294967296 - uint64(1+r.Intn(40))
+		case 1:
+			return r.U64() & 0xffffffff
+		}
+		return 0
+	}
+	parts := []string{histHead(r, "dig", start())}
+	small := oneFieldTpl(256+r.Intn(100), entities.Unsigned8, 1+r.Intn(400))
+	other := genTpl(r, 500+r.Intn(100), 1+r.Intn(4))
+	parts = append(parts, small.tplSet(r)) // set object 0
+	nS := 1
+	session := func(first bool) {
+		n := 1 + r.Intn(5)
+		for i := 0; i < n; i++ {
+			switch k := r.Intn(8); {
+			case k < 4:
+				parts = append(parts, manyRecords(small, []int{0, 1, 2, 7, 40, 255, 1000}[r.Intn(7)], r.Intn(256)))
+				nS++
+				env.Count("reconnect/data")
+			case k < 5:
+				parts = append(parts, other.tplSet(r), other.dataSet(r, 1+r.Intn(3)))
+				nS += 2
+				env.Count("reconnect/second-template")
+			case k < 6 && nS > 1:
+				parts = append(parts, fmt.Sprintf("C %d ;", 1+r.Intn(nS-1))) // an earlier set object again
+				env.Count("reconnect/set-object-again")
+			default:
+				parts = append(parts, "C 0 ;") // the template again
+				env.Count("reconnect/template-again")
+			}
+		}
+	}
+	session(true)
+	for k := 1 + r.Intn(3); k > 0; k-- {
+		if r.Intn(3) == 0 {
+			parts = append(parts, fmt.Sprintf("X %d", start()))
+		} else {
+			parts = append(parts, "X -") // as InitExportingProcess leaves it
+		}
+		env.Count("reconnect/new-process")
+		if r.Bool() {
+			// data of the previous process's template before it is known again: refused
+			parts = append(parts, manyRecords(small, 1+r.Intn(5), 3))
+			nS++
+			env.Count("reconnect/data-before-template")
+		}
+		parts = append(parts, "C 0 ;")
+		session(false)
+	}
+	return strings.Join(parts, " ")
+}
+
 func runC08(env *Env) {
 	registry.LoadRegistry()
 	if replayHist(env, "C08") {
@@ -95,5 +156,14 @@ func runC08(env *Env) {
 	}
 	for i := 0; i < n; i++ {
 		emit(genC08(env))
+	}
+	// reconnects: the second process counts from its own start
+	for _, proto := range []string{"tcp", "udp"} {
+		emit(fmt.Sprintf("%s 7 4294967293 dig %s %s X - %s C 0 ; %s X 4294967295 C 0 ; %s X - C 0 ; C 1 ;", proto, small.tplSet(env.Rng),
+			manyRecords(small, 5, 1), manyRecords(small, 2, 2), manyRecords(small, 3, 3), manyRecords(small, 2, 4)))
+		env.Count("shape/reconnect")
+	}
+	for i := 0; i < n/4; i++ {
+		emit(genC08Reconnect(env))
 	}
 }
